@@ -144,6 +144,23 @@ def install():
         def __eq__(self, other):
             return self is other
 
+    class _TP(connector._TransportPlaceholder):
+        # placeholders share the _acquired set with protocols: same deterministic hashing
+        __slots__ = ("_sim_seq",)
+
+        def __init__(self, *a, **kw):
+            self._sim_seq = simloop.next_seq()
+            super().__init__(*a, **kw)
+
+        def __hash__(self):
+            return self._sim_seq
+
+        def __eq__(self, other):
+            return self is other
+
+    _TP.__name__ = _TP.__qualname__ = "_TransportPlaceholder"
+    connector._TransportPlaceholder = _TP
+
     _RH.__name__ = "ResponseHandler"
     _RH.__qualname__ = "ResponseHandler"
     connector.ResponseHandler = _RH
